@@ -19,6 +19,7 @@ NAME_STYLES = [
     lambda n: ["node_%s" % c for c in "zyxwvutsrq"][:n],
     lambda n: ["a b", "a.b", "Z", "z", "_", "é", "0", "~", "a", "B"][:n],
     lambda n: ["a", "ab", "bc", "c", "b", "abc", "ca", "1", "12", "2"][:n],     # prefix-related names: different sets of names can concatenate to the same string
+    lambda n: ["", " ", "x", "  ", "\t", "y", " x", "x ", "0", "None"][:n],         # empty and blank names, names that differ only by surrounding blanks
 ]
 def confusable_sets(names, maxsize=3):
     """groups of different vertex-id sets whose sorted names concatenate to the same string (keys built by joining names confuse them)"""
